@@ -7,5 +7,5 @@ CONSTANTS
   MaxText = 6
   Ints <- IntsThorough
   Obs <- ObsEmit
-INVARIANTS CopyLaws SubstrLaws InPlaceLaws
+INVARIANTS CopyLaws SubstrLaws InPlaceLaws AliasLaws
 CHECK_DEADLOCK FALSE
